@@ -504,7 +504,7 @@ class Loaded:
                 from schemathesis.core.result import Err
                 if isinstance(result, Err):
                     exc = result.err()
-                    return ["err", type(exc).__name__.lstrip("_"), str(exc).replace(self.root, "<root>")[:160]]
+                    return ["err", type(exc).__name__.lstrip("_"), canon_message(str(exc), self.root)]
                 op = result.ok()
                 self.ops.append(op)
                 return ["ok", op.label]
@@ -512,7 +512,7 @@ class Loaded:
         except InfraError:
             raise
         except Exception as exc:
-            return ["err", type(exc).__name__.lstrip("_"), str(exc).replace(self.root, "<root>")[:160]]
+            return ["err", type(exc).__name__.lstrip("_"), canon_message(str(exc), self.root)]
 
     def version(self):
         """fingerprint of everything another thread could observe on the schema object right now"""
@@ -535,6 +535,12 @@ class Loaded:
 
     def final_digests(self):
         return {oid: digest(v, self.shared_ids) for oid, v in self.objects.items()}
+
+
+def canon_message(text, root):
+    """error text without the temporary directory and without the digests that depend on it"""
+    import re
+    return re.sub(r"[0-9a-f]{40}", "<key>", text.replace(root, "<root>"))[:160]
 
 
 def role(request):
@@ -728,10 +734,12 @@ def classify(run, thread, a, b, stack_foreign, cell_incomplete):
         t, _k, payload = run["events"][i]
         if t == thread:
             return f"C13:shared-cell:{payload[0]}:read-while-another-worker-is-still-building-it", i
-    for i in stack_foreign:
+    # the deviating thread's own reads first; then the other thread's (it may have published what this one then used)
+    for i in [j for j in stack_foreign if run["events"][j][0] == thread] + \
+            [j for j in stack_foreign if run["events"][j][0] != thread]:
         t, kind, _payload = run["events"][i]
         if t != thread:
-            continue
+            thread, me, other = t, other, me
         held = {0: [], 1: []}
         for tt, k, p in run["events"][:i]:
             if k == "acq":
